@@ -46,8 +46,10 @@ def overlapping(rng, tier):
     for rep in range(4 if tier == "quick" else 40):
         ops = [{"op": "listen"}, {"op": "probe"}]
         for _ in range(rng.randrange(1, 4)):
-            ops += rng.choice([[{"op": "delete"}, {"op": "listen"}], [{"op": "listen"}], [{"op": "delete"}], [{"op": "start"}]])
-            ops.append({"op": "probe"})
+            ops += rng.choice([[{"op": "delete"}, {"op": "listen"}], [{"op": "listen"}], [{"op": "delete"}], [{"op": "start"}], [{"op": "listen_busy"}, {"op": "listen"}]])
+            ops.append({"op": "probe", "sni": rng.choice(["", "", "c2.example.com", "localhost"])})
+        if rep == 0:
+            ops += [{"op": "listen_busy"}, {"op": "listen"}, {"op": "probe", "sni": "shell.example.org"}]
         cases.append({"depth": rng.randrange(0, 3), "ops": ops})
     return cases
 
@@ -149,6 +151,9 @@ def check(run):
         pins, pouts = [], []
         for c, r in zip(oc, ores):
             for op, st in zip(c["ops"], r.get("steps") or []):
+                if op["op"] == "listen_busy" and "file_same" in st:
+                    pins.append({"case": c["i"], "op": "a start that fails at bind (address in use)"})
+                    pouts.append({"started": ["unchanged"], "served": ["unchanged" if st["file_same"] else "cache file removed or rewritten"]})
                 if op["op"] == "probe":
                     pins.append({"case": c["i"], "ops_so_far": [o["op"] for o in c["ops"][:c["ops"].index(op) + 1]]})
                     pouts.append({"started": st.get("started") or [], "served": st.get("served") or []})
@@ -157,7 +162,8 @@ def check(run):
                           {7: "a run that was still up presented another key pair than the one it started with (and advertised) after the cache file had "
                               "been deleted / re-created by another run"}, (0,),
                           "runs that overlap in time on one cache path (real sstls.Listen listeners, real handshakes): A up, cache deleted, B up, more runs "
-                          "and deletions; at every probe each run that is still up must present the key it presented when it started",
+                          "and deletions, starts that fail at bind; at every probe - also by clients that send a server name - each run that is still up must "
+                          "present the key it presented when it started; a failed start leaves the cache file as it was",
                           judge="judge_up", key_fn=lambda i: json.dumps(i))
     run.assumptions += ["os.WriteFile leaves a prefix on a crash (torn files are constructed, the process is not killed mid-write)",
                         "txtar / PEM / X509KeyPair parsing is the libraries'; the hypothesis load_ok about them is checked by the enumeration above, not proved",
